@@ -112,6 +112,30 @@ def replay(case):
                 H2 = np.asarray(h_ret, dtype=float)
                 if H2.shape != (dim, dim) or any(not close(H2[j, l], hess[j][l]) for j in range(dim) for l in range(dim)):
                     out.append(('%s:hessian:overwritten' % fam, 'the array returned by hessian(t) changed after a call at another point (cfg %r)' % (_short(cfg),)))
+            # one point buffer that the caller overwrites in place (x += ...): queried at another point first, refilled with t,
+            # queried again - the answers must be the derivatives at the current contents
+            buf = (0.5 * t + 0.0625).copy()
+            try:
+                f.gradient(buf)
+                f.partial(buf, cfg['idx'] % dim)
+                if fam not in ('pgauss', 'bspline'):
+                    f.hessian(buf)
+                    f.partial2(buf, cfg['idx'] % dim, cfg['idx'] % dim)
+                f(buf)
+            except Exception:
+                pass
+            buf[:] = t
+            gb = np.asarray(f.gradient(buf), dtype=float)
+            pb = [float(f.partial(buf, j)) for j in range(dim)]
+            vb = float(f(buf))
+            stale = gb.shape != (dim,) or any(not close(gb[j], grad[j]) for j in range(dim)) or \
+                any(not close(pb[j], grad[j]) for j in range(dim)) or not close(vb, val)
+            if not stale and fam not in ('pgauss', 'bspline'):
+                Hb = np.asarray(f.hessian(buf), dtype=float)
+                stale = Hb.shape != (dim, dim) or any(not close(Hb[j, l], hess[j][l]) for j in range(dim) for l in range(dim))
+            if stale:
+                out.append(('%s:refilled-buffer' % fam, 'value / derivatives at a point buffer that was refilled in place are not those of its '
+                            'current contents (cfg %r)' % (_short(cfg),)))
             # evaluation on an array of points equals evaluation point by point
             if fam != 'bspline':
                 T = np.stack([t, t + 0.125, 2 * t - 0.5], axis=1)
